@@ -187,6 +187,7 @@ def _(self: ElemK) -> Union[bool, Dict[str, LabelVal]]:
 def _(self: ElemK, survey: SurveyS) -> XNode:
     properties("C06", "C07")
     no_native("needs survey-element objects: exercised through the e2e oracles")
+    functional("LabelNode")
     may_raise(PyXFormError, when=True)
     L = some(self.label)
     ensures(result.tagName == "label" and result.nodeType == 1)
